@@ -204,6 +204,11 @@ type IntersectsCap struct {
 	cap      s2.Cap
 	interior s2.CellUnion
 	exterior s2.CellUnion
+	// The radius as given in meters, if any. s2.Cap stores a chord angle,
+	// and converting that back to meters isn't exact, so repeated
+	// conversions to and from protos would otherwise drift.
+	radiusMeters    float64
+	hasRadiusMeters bool
 }
 
 func NewIntersectsCap(cap s2.Cap) *IntersectsCap {
@@ -213,6 +218,19 @@ func NewIntersectsCap(cap s2.Cap) *IntersectsCap {
 		interior: coverer.InteriorCovering(cap),
 		exterior: coverer.Covering(cap),
 	}
+}
+
+func NewIntersectsCapFromCenterAndRadiusMeters(center s2.Point, radiusMeters float64) *IntersectsCap {
+	i := NewIntersectsCap(s2.CapFromCenterAngle(center, MetersToAngle(radiusMeters)))
+	i.radiusMeters, i.hasRadiusMeters = radiusMeters, true
+	return i
+}
+
+func (i *IntersectsCap) RadiusMeters() float64 {
+	if i.hasRadiusMeters {
+		return i.radiusMeters
+	}
+	return AngleToMeters(i.cap.Radius())
 }
 
 func (i *IntersectsCap) String() string {
@@ -225,7 +243,7 @@ func (i *IntersectsCap) ToProto() (*pb.QueryProto, error) {
 		Query: &pb.QueryProto_IntersectsCap{
 			IntersectsCap: &pb.CapProto{
 				Center:       NewPointProtoFromS2Point(i.cap.Center()),
-				RadiusMeters: AngleToMeters(i.cap.Radius()),
+				RadiusMeters: i.RadiusMeters(),
 			},
 		},
 	}, nil
@@ -277,8 +295,7 @@ func (i *IntersectsCap) UnmarshalYAML(unmarshal func(interface{}) error) error {
 	var y intersectsCapYAML
 	err := unmarshal(&y)
 	if err == nil {
-		cap := s2.CapFromCenterAngle(s2.PointFromLatLng(s2.LatLng(y.Center)), MetersToAngle(y.Radius))
-		*i = *NewIntersectsCap(cap)
+		*i = *NewIntersectsCapFromCenterAndRadiusMeters(s2.PointFromLatLng(s2.LatLng(y.Center)), y.Radius)
 	}
 	return err
 }
@@ -750,8 +767,7 @@ func NewQueryFromProto(p *pb.QueryProto) (Query, error) {
 		return Tagged{Key: q.Tagged.Key, Value: NewStringExpression(q.Tagged.Value)}, nil
 	case *pb.QueryProto_IntersectsCap:
 		ll := PointProtoToS2LatLng(q.IntersectsCap.Center)
-		cap := s2.CapFromCenterAngle(s2.PointFromLatLng(ll), MetersToAngle(q.IntersectsCap.RadiusMeters))
-		return NewIntersectsCap(cap), nil
+		return NewIntersectsCapFromCenterAndRadiusMeters(s2.PointFromLatLng(ll), q.IntersectsCap.RadiusMeters), nil
 	case *pb.QueryProto_IntersectsFeature:
 		return IntersectsFeature{ID: NewFeatureIDFromProto(q.IntersectsFeature)}, nil
 	case *pb.QueryProto_IntersectsPoint:
